@@ -203,6 +203,13 @@ class Source:
                         i = close + 1
                         continue
                     else:
+                        if m.group(1) == 'struct' and j < n:
+                            hs = i
+                            ls = t.rfind('\n', 0, i) + 1
+                            prefix = t[ls:i]
+                            if re.fullmatch(r'\s*(pub(\([a-z]+\))?\s+)?', prefix):
+                                hs = ls + (len(prefix) - len(prefix.lstrip()))
+                            out.append(('struct', t[hs:j].strip(), hs, j, j))
                         i = j + 1
                         continue
             i += 1
@@ -391,4 +398,70 @@ class Source:
                         break
                 j += 1
             res.append((m.start(), j))
+        return res
+
+    def closures_in(self, start, end):
+        """closures in [start,end) in source order: (bar_start, header_end, body_start, body_end, is_block)"""
+        t = self.text
+        res = []
+        i = start
+        while i < end:
+            if self.code[i] and t[i] == '|':
+                # previous significant char
+                k = i - 1
+                while k >= start and (t[k].isspace() or not self.code[k]):
+                    k -= 1
+                prev = t[k] if k >= start else '('
+                prev_word = re.search(r'(\w+)\s*$', t[max(start, i - 12):i])
+                is_start = prev in '(,=' and not (prev == '=' and t[k - 1] in '=!<>|&')
+                if prev_word and prev_word.group(1) in ('move', 'return'):
+                    is_start = True
+                if not is_start:
+                    i += 1
+                    continue
+                if t[i + 1] == '|':
+                    hend = i + 2
+                else:
+                    j = i + 1
+                    d = 0
+                    while j < end:
+                        if self.code[j]:
+                            if t[j] in '([<':
+                                d += 1
+                            elif t[j] in ')]>':
+                                d -= 1
+                            elif t[j] == '|' and d <= 0:
+                                break
+                        j += 1
+                    hend = j + 1
+                b = hend
+                while b < end and t[b].isspace():
+                    b += 1
+                if t[b] == '{':
+                    be = self.match_close(b) + 1
+                    res.append((i, hend, b, be, True))
+                else:
+                    j = b
+                    d = 0
+                    while j < end:
+                        if self.code[j]:
+                            c = t[j]
+                            if c in OPEN:
+                                d += 1
+                            elif c in CLOSE:
+                                if d == 0:
+                                    break
+                                d -= 1
+                            elif c == ',' and d == 0:
+                                break
+                            elif c == ';' and d == 0:
+                                break
+                        j += 1
+                    be = j
+                    while be > b and t[be - 1].isspace():
+                        be -= 1
+                    res.append((i, hend, b, be, False))
+                i = hend
+                continue
+            i += 1
         return res
